@@ -5,7 +5,7 @@ from props.common import gen_strategy, quiet_logging, Violations
 from worlds.full import FullWorld, default_cluster_spec, ReqObs
 
 ID = 'C09'
-TIERS = {'quick': {'runs': 4000, 'budget_s': 55, 'wall_cap': 90, 'block': 60},
+TIERS = {'quick': {'runs': 12000, 'budget_s': 55, 'wall_cap': 90, 'block': 60},
          'thorough': {'runs': 400000, 'budget_s': 840, 'wall_cap': 90, 'block': 60}}
 SHRINK_LISTS = ['requests']
 COVERAGE_RULE = ('one run = real Cluster/Session with one node and one pooled connection (protocol 3-5), knob '
